@@ -130,6 +130,8 @@ class SymArray(np.ndarray):
                 ins.append(x.view(np.ndarray))
             elif isinstance(x, np.ndarray) and x.dtype != object:
                 ins.append(lift_array(x))
+            elif isinstance(x, np.floating):
+                ins.append(S.lift(x))  # keeps the single-precision reading of np.float32 scalars
             else:
                 ins.append(x)
         kw.pop("dtype", None)
@@ -393,6 +395,8 @@ def apply_ufunc(ufunc, *ins):
             conv.append(x.view(np.ndarray))
         elif isinstance(x, np.ndarray) and x.dtype != object:
             conv.append(lift_array(x))
+        elif isinstance(x, np.floating):
+            conv.append(S.lift(x))
         else:
             conv.append(x)
     res = f(*conv)
